@@ -47,8 +47,8 @@ CHECKS = {
          "Exploration: HashBidiMap and TreeBidiMap over 4-6 keys x 4-6 values so all collision kinds occur constantly; Get/GetKey for the whole alphabets, inverse consistency on the implementation's own answers, Size=len(Keys)=len(Values), no duplicate/stale value. Holds on the executed histories only.",
          "Trusts the two-map model with the stated Put/Remove rule (class-keyed for TreeBidiMap).",
          "DESIGN.md §4 C10"),
- "C11": ("online round-trip monitor: ToJSON validity/shape/json.Marshal equality, reload into fresh containers through three loaders, observer equivalence, lockstep drain/continuation",
-         "Exploration: all 21 containers in never-used, cleared and history-reached states (wrapped rings, all comparators, int/string keys, values equal to key text); output of ToJSON is loaded by FromJSON, json.Unmarshal and UnmarshalJSON into fresh containers of the same configuration which must be equivalent in every observer and drain/continue identically. Holds on the executed states only.",
+ "C11": ("online round-trip monitor: ToJSON validity/shape/json.Marshal equality, reload into fresh containers through four loaders (FromJSON, json.Unmarshal, UnmarshalJSON, member of an enclosing document), observer equivalence, lockstep drain/continuation",
+         "Exploration: all 21 containers in never-used, cleared and history-reached states (wrapped rings, all comparators, int/string keys, values equal to key text); output of ToJSON is loaded by FromJSON, json.Unmarshal, UnmarshalJSON and as a member of an enclosing document into fresh containers of the same configuration which must be equivalent in every observer and drain/continue identically. Holds on the executed states only.",
          "Trusts encoding/json as the judge of validity; elements/keys are ints, valid-UTF-8 strings, a defined string type, JSON structs, pointer-receiver JSON types, and `any` holding float64/string/bool/nil.",
          "DESIGN.md §4 C11"),
  "C12": ("online monitor over (prior state x hostile input) pairs: before/after snapshots on error, harness-side denotation on success, lockstep continuation against a container built through the ordinary API",
